@@ -912,7 +912,11 @@ class World:
             idv = IntV(idv, 8)
         return Agg("struct", "Msg", [idv])
 
+    DURATION_MAX_NS = 18446744073709551615999999999
+
     def mk_duration(self, ns):
+        if isinstance(ns, str) and ns == "MAX":
+            ns = self.DURATION_MAX_NS
         return Agg("struct", "Duration", [ns if not isinstance(ns, IntV) else ns.v])
 
     def call_method(self, it, ty, meth, args):
@@ -956,6 +960,8 @@ class World:
             if mm.group(2) == "MAX":
                 return IntV((1 << (bits - 1)) - 1 if signed else (1 << bits) - 1, bits, signed)
             return IntV(-(1 << (bits - 1)) if signed else 0, bits, signed)
+        if path.endswith("Duration::MAX") or s.endswith("Duration::MAX"):
+            return Agg("struct", "Duration", [18446744073709551615999999999])
         if path.endswith("Duration::ZERO") or s.endswith("Duration::ZERO"):
             return Agg("struct", "Duration", [0])
         if s.endswith("SystemTime::UNIX_EPOCH") or s.endswith("UNIX_EPOCH"):
